@@ -11,7 +11,7 @@ cd "$W" || exit 2
 cleanup() { cd /; git -C /repo worktree remove --force "$W" >/dev/null 2>&1; }
 trap cleanup EXIT
 if ! git apply --check "$D/patch.diff" 2>/dev/null; then echo "RESULT patch-does-not-apply"; exit 1; fi
-DEMO=$(ls "$D" | grep -E '^demo\.' | head -1)
+DEMO=$(for c in demo.sh demo.py demo.rs; do [ -f "$D/$c" ] && echo $c && break; done)
 run_demo() {
   case "$DEMO" in
     demo.rs) CR=$(grep -oE 'abasic-(core|lsp|web|cli)/tests/' "$D/README.md" | head -1 | cut -d/ -f1); CR=${CR:-abasic-core}; mkdir -p $CR/tests; cp "$D/demo.rs" $CR/tests/seed_demo.rs; timeout 900 cargo test --offline -q -p $CR --test seed_demo >/tmp/confirm-demo-$$.log 2>&1; rc=$?; rm -f $CR/tests/seed_demo.rs; return $rc;;
